@@ -19,6 +19,7 @@ import (
 	"reduction.dev/reduction/proto/jobpb"
 	"reduction.dev/reduction/proto/snapshotpb"
 	"reduction.dev/reduction/proto/workerpb"
+	"reduction.dev/reduction/util/verifhook"
 	"reduction.dev/reduction/workers/operator"
 	"verifharness/hx"
 )
@@ -90,7 +91,7 @@ func genSlot(tier string, r *hx.Rand) []*hx.Case {
 
 func executeSlot(c *hx.Case) (*hx.Result, error) {
 	if len(c.Ops) == 0 {
-		return &hx.Result{Term: "(SlotCase (@nil N) 1 (@nil N) (@nil N) (@nil N) (@nil N) 2 (@nil N) (@nil N))", Tags: []string{"empty"}}, nil
+		return &hx.Result{Term: "(SlotCase true (@nil N) 1 (@nil N) (@nil N) (@nil N) (@nil N) 2 (@nil N) (@nil N))", Tags: []string{"empty"}}, nil
 	}
 	var so slotOp
 	if err := json.Unmarshal(c.Ops[0], &so); err != nil {
@@ -115,6 +116,31 @@ func executeSlot(c *hx.Case) (*hx.Result, error) {
 			Operators: []*jobpb.NodeIdentity{{Id: "op0", Host: "h"}}, SourceRunnerIds: srIDs, KeyGroupCount: keyGroups, StorageLocation: dir,
 		}, &embedded.RecordingSink{})
 	}
+	// a retention update of the job reaching an operator that is registered but not deployed yet (standby, fresh worker)
+	preOK := true
+	func() {
+		defer func() {
+			if p := recover(); p != nil {
+				preOK = false
+			}
+		}()
+		if err := opr.HandleRemoveCheckpoints(ctx, &workerpb.UpdateRetainedCheckpointsRequest{CheckpointIds: []uint64{uint64(so.A)}}); err != nil {
+			preOK = false
+		}
+	}()
+	// a request parked by alignSender announces itself at the hook point: no time-out is needed to see it
+	parked := make(chan string, 64)
+	verifhook.Set(func(name string, args ...any) {
+		if name == "operator.align.park" && len(args) == 1 {
+			if id, ok := args[0].(string); ok {
+				select {
+				case parked <- id:
+				default:
+				}
+			}
+		}
+	})
+	defer verifhook.Set(nil)
 	// the operator's Start closes its database when it stops: deploy first so that one exists
 	if err := deploy(); err != nil {
 		cancel()
@@ -128,7 +154,7 @@ func executeSlot(c *hx.Case) (*hx.Result, error) {
 		case <-time.After(waitFor):
 		}
 	}()
-	// result of one barrier: 0 registered, 1 rejected, 2 completed the checkpoint (ack sent to the job), 3 no answer (parked)
+	// result of one barrier: 0 registered, 1 rejected, 2 completed the checkpoint (ack sent to the job), 3 parked by alignSender, 4 no answer
 	barrier := func(sender int, id int) uint64 {
 		job.mu.Lock()
 		before := len(job.acks)
@@ -149,9 +175,11 @@ func executeSlot(c *hx.Case) (*hx.Result, error) {
 				return 2
 			}
 			return 0
+		case <-parked:
+			return 3
 		case <-time.After(waitFor):
 			timedOut()
-			return 3
+			return 4
 		}
 	}
 	// the operator handles events only once its loop runs and it is Ready; HandleEvent answers Unavailable before
@@ -183,7 +211,10 @@ func executeSlot(c *hx.Case) (*hx.Result, error) {
 	if len(so.Late) > 0 {
 		tags = append(tags, "stale-barrier-after-redeploy")
 	}
-	term := fmt.Sprintf("(SlotCase %s %d %s %s %s %s %d %s %s)", nlist(runners), so.A, nlist(conv(so.First)), nlist(r1), nlist(conv(so.Late)), nlist(rl), so.B, nlist(conv(so.Second)), nlist(r2))
+	if !preOK {
+		tags = append(tags, "retention-update-before-deploy-failed")
+	}
+	term := fmt.Sprintf("(SlotCase %s %s %d %s %s %s %s %d %s %s)", hx.CoqBool(preOK), nlist(runners), so.A, nlist(conv(so.First)), nlist(r1), nlist(conv(so.Late)), nlist(rl), so.B, nlist(conv(so.Second)), nlist(r2))
 	return &hx.Result{Term: term, Nontrivial: len(so.First) > 0, Tags: tags,
-		Observed: map[string]any{"first_results": r1, "late_results": rl, "second_results": r2}}, nil
+		Observed: map[string]any{"retention_before_deploy_ok": preOK, "first_results": r1, "late_results": rl, "second_results": r2}}, nil
 }
